@@ -4,7 +4,7 @@
 
 use super::Case;
 use crate::engine::{guarded, Outcome, Part, PartKind, Tier};
-use crate::gen::{book_case_strategy, core_op, core_sequence, core_space, exact_ref, GenCfg};
+use crate::gen::{book_case_strategy, core_op, core_sequence, core_sequence2, core_space, core_space2, exact_ref, GenCfg};
 use crate::ops::{run_book_case, BookCase, Features, Op, Oracles};
 
 pub const TICK: u32 = 2;
@@ -135,6 +135,84 @@ fn exhaustive_core(name: &str, depth: usize, advs: &'static [u64], tie: bool) ->
     }
 }
 
+/// the larger alphabet (5 prices x 3 volumes x 2 sides limit, 3 volumes x 2 sides market, cancels of every id)
+fn exhaustive_core2(name: &str, depth: usize, advs: &'static [u64], tie: bool, levels: usize) -> Part<Case> {
+    let total = core_space2(depth, advs.len() as u64);
+    Part {
+        name: name.to_string(),
+        kind: PartKind::Exhaustive {
+            total,
+            decode: Box::new(move |i| Some(Case::Book(case_of(core_sequence2(i, depth, advs, TICK, MID), tie, true, levels)))),
+            description: format!(
+                "every sequence of exactly {} steps; step k = (clock advance in {:?}) x (36 create-and-place ops: 5 prices x 3 volumes (1, 2, 5) x 2 sides limit + 3 volumes (2, 3, 7) x 2 sides market, or cancel of id 0..k); tick {}, LEVELS {}",
+                depth, advs, TICK, levels
+            ),
+        },
+    }
+}
+
+/// Queue depths for the level-depth enumeration: every depth 1..=260 and the neighbourhoods of 384, 512, 768, 1024.
+fn level_depths() -> Vec<usize> {
+    let mut v: Vec<usize> = (1..=260).collect();
+    v.extend([383, 384, 385, 511, 512, 513, 767, 768, 769, 1023, 1024, 1025]);
+    v
+}
+
+/// One price level of EXACTLY `d` resting orders (volumes 1 / 2), `m` orders on the level behind it, and one
+/// aggressor that consumes the first level in one go: a code path that treats queues in blocks (batched sweeps,
+/// split_off, chunked iteration) is exercised at every block size, not only at the depths random histories reach.
+fn exhaustive_level_depths(name: &str) -> Part<Case> {
+    let depths = level_depths();
+    let n_d = depths.len() as u64;
+    const BEHIND: [usize; 3] = [0, 1, 3];
+    const KINDS: u64 = 6;
+    let total = n_d * 3 * 2 * KINDS;
+    Part {
+        name: name.to_string(),
+        kind: PartKind::Exhaustive {
+            total,
+            decode: Box::new(move |i| {
+                let kind = i % KINDS;
+                let i = i / KINDS;
+                let agg_bid = i % 2 == 0;
+                let i = i / 2;
+                let m = BEHIND[(i % 3) as usize];
+                let d = depths[(i / 3) as usize];
+                // passive side: asks above the mid when the aggressor buys, bids below it when it sells
+                let (p1, p2, far) = if agg_bid { ((MID + 1) * TICK, (MID + 2) * TICK, (MID - 6) * TICK) } else { ((MID - 1) * TICK, (MID - 2) * TICK, (MID + 6) * TICK) };
+                let mut ops = vec![];
+                // id 0: a resting order of the aggressor's side far from the touch (re-priced in kind 5)
+                ops.push(Op::CreatePlace { bid: agg_bid, vol: 1, trader: 5, price: Some(far) });
+                let mut sum = 0u32;
+                for k in 0..d {
+                    let v = 1 + (k % 3 == 0) as u32;
+                    sum += v;
+                    ops.push(Op::Advance(1));
+                    ops.push(Op::CreatePlace { bid: !agg_bid, vol: v, trader: (k % 4) as u32, price: Some(p1) });
+                }
+                for k in 0..m {
+                    ops.push(Op::Advance(1));
+                    ops.push(Op::CreatePlace { bid: !agg_bid, vol: 2 + k as u32, trader: 6, price: Some(p2) });
+                }
+                ops.push(Op::Advance(1));
+                ops.push(match kind {
+                    0 => Op::CreatePlace { bid: agg_bid, vol: sum, trader: 9, price: Some(p1) },
+                    1 => Op::CreatePlace { bid: agg_bid, vol: sum + 3, trader: 9, price: Some(p1) },
+                    2 => Op::CreatePlace { bid: agg_bid, vol: sum + 1, trader: 9, price: Some(p2) },
+                    3 => Op::CreatePlace { bid: agg_bid, vol: sum, trader: 9, price: None },
+                    4 => Op::CreatePlace { bid: agg_bid, vol: sum + 1, trader: 9, price: None },
+                    _ => Op::Modify { r: exact_ref(0), price: Some(p1), vol: Some(sum) },
+                });
+                Some(Case::Book(case_of(ops, false, true, 3)))
+            }),
+            description: format!(
+                "every queue depth d in 1..=260 and around 384, 512, 768, 1024 ({} depths) x {{0, 1, 3}} orders on the level behind x aggressor side x 6 aggressors (limit for exactly the level's volume, limit for more at the level's price, limit through to the next level, market for the level's volume, market for one more, resting order re-priced onto the level), then the drain probe",
+                n_d
+            ),
+        },
+    }
+}
+
 /// cores of depth `d` (tie-free, advance 1 before every op) followed by a decoded tail
 fn exhaustive_tail(name: &str, depth: usize, tail_space: u64, tail: impl Fn(u64, &mut Vec<Op>, &mut BookCase) -> bool + Sync + 'static, descr: String, tie: bool) -> Part<Case> {
     static ADV1: [u64; 1] = [1];
@@ -203,6 +281,8 @@ pub fn parts(id: &'static str, tier: Tier) -> Vec<Part<Case>> {
             if !q {
                 parts.push(exhaustive_core("exhaustive-core-tiefree-6", 6, &ADV1, false));
             }
+            parts.push(exhaustive_core2("exhaustive-core-5-prices-3-volumes", tier.pick(3, 4), &ADV01, false, 5));
+            parts.push(exhaustive_level_depths("exhaustive-level-depths"));
             let mut c = GenCfg::base(len);
             c.w_modify = 4;
             parts.push(random_part("random-dense", c.clone(), tier.pick(150_000, 3_000_000)));
@@ -227,6 +307,8 @@ pub fn parts(id: &'static str, tier: Tier) -> Vec<Part<Case>> {
                     });
                 }
             }
+            parts.push(exhaustive_core2("exhaustive-core-5-prices-3-volumes", tier.pick(3, 4), &ADV01, false, if id == "C02" { 4 } else { 5 }));
+            parts.push(exhaustive_level_depths("exhaustive-level-depths"));
             let mut c = GenCfg::base(len);
             c.w_modify = 14;
             c.w_trading = if id == "C02" { 2 } else { 3 };
@@ -285,6 +367,7 @@ pub fn parts(id: &'static str, tier: Tier) -> Vec<Part<Case>> {
         }
         "C05" => {
             parts.push(exhaustive_core("exhaustive-core-ties", tier.pick(4, 5), &ADV01, true));
+            parts.push(exhaustive_core2("exhaustive-core-ties-5-prices-3-volumes", tier.pick(3, 4), &ADV01, true, 5));
             // re-queuing modification / reload inserted after every depth<=3 core with ties
             let prices = grid_prices();
             parts.push(exhaustive_tail(
